@@ -80,6 +80,17 @@ def do_user_call(X, node, st):
                     raise VCError("split on a symbolic separator")
                 return [("n", st, ConstList(str_split(obj, sep.const())))]
             raise VCError(f"str method {f.attr}")
+        if isinstance(obj, ConstList) and f.attr == "remove" and isinstance(f.value, ast.Name):
+            (v,) = args()
+            for k_, it in enumerate(obj.items):
+                c_ = z3.simplify(X.eq(it, v, st))
+                if z3.is_true(c_):
+                    st.env[f.value.id] = ConstList(obj.items[:k_] + obj.items[k_ + 1:])
+                    return [("n", st, NONE)]
+                if not z3.is_false(c_):
+                    raise VCError("remove() on a constant list with a symbolic match")
+            X.safety("list.remove(x): x in list (ValueError)", st, FALSE)
+            return [("n", st, NONE)]
         if isinstance(obj, ConstList) and f.attr == "append" and isinstance(f.value, ast.Name):
             (v,) = args()
             st.env[f.value.id] = ConstList(obj.items + [v])      # Python-level list of fixed length: copy-on-write
@@ -331,7 +342,12 @@ def apply_contract(X, st, C, env, node):
     post = st.cp()
     old_view = State(dict(env), dict(st.heap), post.pc, dict(pre.meta))
     mods = dict(C.modifies)
-    if C.allocates:
+    if C.allocates == "keep_fields":
+        # the callee writes no field of any pre-existing object; the objects it allocates are chosen among the unallocated
+        # references, whose field values are unconstrained in every state (all typing axioms are guarded by `alloc`), so their
+        # fields can be described on the same arrays: no field array is re-framed
+        mods.setdefault("@lists", None)
+    elif C.allocates:
         # a callee that allocates objects re-frames the fields of the classes it can instantiate; the configuration object of the
         # tokeniser is never created by library code called from inside a verified function, so its fields stay as they are
         keep = set(X.ctx.schema.get("MultiTrackLargeVocabularyNotelikeTokeniser", {})) if not C.qual.startswith("MultiTrackLargeVocabularyNotelikeTokeniser") else set()
@@ -381,10 +397,21 @@ def apply_contract(X, st, C, env, node):
     if isinstance(res, (Ref, ListV)) and not C.pure:
         a_ = post.heap["@alloc"][res.v]
         post.pc.append(z3.Implies(z3.Not(res.none), a_) if res.none is not None else a_)     # a returned object is allocated
+    rec = dict(post.meta.get("callres", {}))
+    nm_ = C.qual.split(".")[-1]
+    res_rec = res
+    if isinstance(res, ListV):
+        res_rec = ListV(res.v, res.elem, res.none)
+        res_rec.frozen_heap = dict(post.heap)          # callres(...) denotes the returned structure as it was on return
+    rec[(nm_, sum(1 for k_ in rec if k_[0] == nm_))] = res_rec
+    post.meta = dict(post.meta)
+    post.meta["callres"] = rec
     cenv = dict(env)
     cenv["result"] = res
     cst = State(cenv, post.heap, post.pc, {"old_heap": dict(st.heap), "old_env": dict(env)})
     for nm, e in C.ensures:
+        post.pc.append(X.truth(X.spec_ev(e, cst), cst))
+    for e in C.names_result:
         post.pc.append(X.truth(X.spec_ev(e, cst), cst))
     outs.append(("n", post, res))
     return outs
